@@ -19,11 +19,6 @@ BOUNDS = 'tx shapes: 0..2 inputs x 0..2 outputs, script lengths {0,1,3,252,253},
 def setup(E):
     stubs.install_all(E)
     for n in ('_ZN15ECCVerifyHandleC1Ev', '_ZN15ECCVerifyHandleC2Ev', '_ZN15ECCVerifyHandleD1Ev', '_ZN15ECCVerifyHandleD2Ev'): E.stubs[n] = lambda E, st, fr, I, A: None
-    # std::ios_base::failure construction (message not modelled)
-    for n in ('_ZNSt8ios_base7failureB5cxx11C1EPKcRKSt10error_code', '_ZNSt8ios_base7failureB5cxx11C1ERKNSt7__cxx1112basic_stringIcSt11char_traitsIcESaIcEEERKSt10error_code', '_ZNSt8ios_base7failureB5cxx11D1Ev',
-              '_ZNSt8ios_base7failureB5cxx11C1EPKc', '_ZNSt8ios_base7failureB5cxx11C1ERKNSt7__cxx1112basic_stringIcSt11char_traitsIcESaIcEEE'):
-        E.stubs[n] = lambda E, st, fr, I, A: None
-    E.stubs['_ZSt17iostream_categoryv'] = lambda E, st, fr, I, A: 0
 
 # ---- shapes: (ins=[(scriptSig_len, [witness item lens] or None)], outs=[spk_len], witness flag)
 def shapes(tier):
